@@ -5,6 +5,7 @@ the exact derivative of the parameter-to-parameter map, 5-point stencil exact fo
 the intended design, the named deviations must violate them, and the exact expected outputs / gradients / refusal table
 are replayed into real cuqi.model.Model / LinearModel / PDEModel objects with real geometries.
 Sequences of public operations on ONE model object: specs/ModelGeomSeq12.tla (EXTENDS ModelGeom), replayed by cuqiverif/c12_seq.py.
+ONE INPUT OBJECT used, modified in place, used again: part X12 of specs/ModelGeomSeq12.tla, replayed by cuqiverif/c12_inplace.py.
 """
 META = {
     "claimed": True,
@@ -22,7 +23,16 @@ META = {
              "Sequences on ONE model object (ModelGeomSeq12.tla, EXTENDS ModelGeom): every behaviour of 3 (thorough: also 4) actions out of forward on "
              "each representation, gradient, assignment of domain_geometry / range_geometry, model(dist) and use of the renamed copies is "
              "replayed on one real object - every answer must be the one of a freshly built model with the configuration the object has at "
-             "that moment, the copies keep name and behaviour, the caller's inputs stay bit-identical; 2 more named deviations must violate."),
+             "that moment, the copies keep name and behaviour, the caller's inputs stay bit-identical; 2 more named deviations must violate. "
+             "ONE INPUT OBJECT (part X12 of ModelGeomSeq12.tla): the state holds the exact content of a CUQIarray of parameters / of function "
+             "values, a plain ndarray of either, a Samples object of either; every behaviour Use, Edit, Use (thorough: also Use, Edit, Use, "
+             "Edit, Use) with Use in x.funvals | x.parameters | model(x) / model.forward(x) | model.gradient(d, x) and Edit one of 23 in-place "
+             "routes on the object (augmented assignment, ufunc out=, setitem, fill, sort, put, copyto, place, putmask, flat, itemset, .real, "
+             "setfield) or an edit through a view of its buffer (x.view(), x.view(ndarray), np.asarray(x), x.to_numpy(), the constructor's "
+             "array, x[:]; Samples: s.samples, the constructor's array, a view, rebinding) is replayed on real objects for 7 (thorough: 84) "
+             "model x geometry configurations incl. StepExpansion, KLExpansion, MappedGeometry, Image2D, user geometries: after every "
+             "action the content of the object and the answer must be the spec's exact value for the content the object has at that "
+             "moment (X12SeesCurrent, X12UseKeepsContent); 3 more named deviations must violate."),
     "note": ("Bounded sizes (domain function dimension 6, range 4); one argument models only (the pinned version supports one input). "
              "KLExpansion realised numerically from the original geometry object. Exact class of the output for plain ndarray input and "
              "exception types are observations, not asserted."),
@@ -388,6 +398,17 @@ def check_case(ctx, case):
 
 
 def run(ctx):
+    from cuqiverif import c12_inplace
+    inplace = c12_inplace.start(ctx)              # TLC runs of the in-place facet: in the background, collected at the end
+    try:
+        _run(ctx)
+    except BaseException:
+        c12_inplace.abandon(inplace)
+        raise
+    ctx.traces += c12_inplace.finish(ctx, inplace)
+
+
+def _run(ctx):
     from cuqiverif import tlc
     from cuqiverif.core import MachineryError
     for dev, inv in DEVIATIONS:
@@ -434,5 +455,8 @@ def replay(ctx, case):
     if case.get("kind") == "seq12":
         from cuqiverif import c12_seq
         return c12_seq.check_seq12_case(ctx, case)
+    if case.get("kind") == "x12":
+        from cuqiverif import c12_inplace
+        return c12_inplace.check_x12_case(ctx, case)
     from cuqiverif.core import MachineryError
     raise MachineryError("unknown replay case kind %r" % case.get("kind"))
